@@ -50,6 +50,20 @@ def top():
     x = dds.keep("/g/prod", prod)
     return dds.keep("/g/reader", reader)
 ''',
+    "loads_in_odd_places": '''
+def base(): return 1
+def rows(): return [1, 2]
+def scaled():
+    acc = []
+    acc.append(dds.load("/g/base"))
+    return acc[0] * 2
+def count():
+    return "{n}".format(n=len(dds.load("/g/rows")))
+def top():
+    b = dds.keep("/g/base", base)
+    r = dds.keep("/g/rows", rows)
+    return (dds.keep("/g/scaled", scaled), dds.keep("/g/count", count))
+''',
     "diamond": '''
 def base(): return 1
 def l(): return dds.keep("/g/base", base) + 1
@@ -113,6 +127,7 @@ SOLID = {
 DASHED = {
     "chain3": set(), "shared_with_sibling": set(), "helper_between": set(), "runtime_args": set(), "diamond": set(),
     "loads": {("/g/prod", "/g/reader")},
+    "loads_in_odd_places": {("/g/base", "/g/scaled"), ("/g/rows", "/g/count")},
     "annotated_called_directly_then_loaded": {("/g/other", "/g/summary"), ("/g/raw", "/g/report")},
     # the name `mid` inside dds.keep("/g/mid", mid) is itself analysed as a (non-kept) reference to mid, so outer reaches
     # the keep of /g/leaf without crossing a kept function: the pair has a solid edge, and an ordered pair carries one edge
